@@ -97,6 +97,8 @@ def run(repo, rep):
     rule_cpu_pass_move(repo, rep)
     rep.clause("C13-aj", "chain merges (pre -> mid -> post into mid) go ahead only if each tensor in between has exactly one consumer")
     rule_chain_merge_consumers(repo, rep)
+    rep.clause("C13-av", "the default scaling branch of pooling-type operators dereferences the (optional) quantisation records only under a None test")
+    rule_optional_quantization(repo, rep)
     rep.clause("C13-au", "members of an operator's (optional) options table are read with .get() or under a membership test in the reader")
     rule_option_members_optional(repo, rep)
     rep.clause("C13-aq", "the scale check rejects a tensor if any of its scales is infinite (quantifier kept under negation)")
@@ -2482,3 +2484,33 @@ def rule_option_members_optional(repo, rep):
                   f"bare subscript: an operator without an options table has no '{k}': KeyError out of the reader (DEPTHWISE_CONV_2D without options)")
     if n < 5:
         raise AnalysisError(f"parse_operator: {n} option member reads")
+
+
+def rule_optional_quantization(repo, rep):
+    """(av) NpuFeatureMap.quantization is Optional (tensors of TRANSPOSE, ARG_MAX, SHAPE are exempt from the 'must have quantisation' check;
+    int32 feature maps normally have none). The default branch of generate_ofm_scaling_for_pooling - the one every pooling-type operator
+    without rescale / fused quantise / LUT activation reaches, the no-op average pools of TRANSPOSE among them - may dereference the records
+    only under a None test of the record itself."""
+    m = repo.mod("register_command_stream_generator")
+    f = m.func("generate_ofm_scaling_for_pooling")
+    site = "ethosu/vela/register_command_stream_generator.py:generate_ofm_scaling_for_pooling"
+    from ..exprnorm import conjuncts
+
+    alias = {a.targets[0].id for a in f.body if isinstance(a, ast.Assign) and len(a.targets) == 1 and isinstance(a.targets[0], ast.Name) and isinstance(a.value, ast.Attribute) and a.value.attr == "quantization"}
+    if not alias:
+        raise AnalysisError("generate_ofm_scaling_for_pooling: quantisation aliases not found")
+    n = 0
+    for i in ast.walk(f):
+        if isinstance(i, ast.If):
+            cj = conjuncts(i.test)
+            texts = [str(norm(c)) for c in cj]
+            for k, c in enumerate(cj):
+                for x in ast.walk(c):
+                    if isinstance(x, ast.Attribute) and isinstance(x.value, ast.Name) and x.value.id in alias:
+                        n += 1
+                        nm = x.value.id
+                        ok = any(t in (f"{nm} is not None", nm) for t in texts[:k])
+                        rep.check(ok, "C13-av", site, f"`{nm}.{x.attr}` in a branch condition is read under `{nm} is not None`",
+                                  f"`{texts[k][:60]}` dereferences `{nm}` (= <fm>.quantization, Optional): TRANSPOSE of a tensor without quantisation parameters (int32, or int8 without a record) aborts with AttributeError: 'NoneType' object has no attribute 'scale_f32'")
+    if n < 2:
+        raise AnalysisError(f"generate_ofm_scaling_for_pooling: {n} dereferences in branch conditions")
